@@ -13,6 +13,9 @@ from .common import Run
 
 def main():
     faulthandler.enable()
+    from . import linecov
+
+    linecov.start_from_env()
     module, tier, shard, n_shards, out = sys.argv[1:6]
     args = sys.argv[6:]
     mod = importlib.import_module(f"verif.checks.{module}")
